@@ -126,7 +126,7 @@ PLANS = {
                      "overflowing_ forms in both spellings: integer<->fixed for all 12 primitive integer types on every layout, "
                      "bool->fixed, and fixed->fixed over 100 family pairs x 6 (quick) / 40 (thorough) Frac combinations; sources sit at "
                      "the destination's range ends +-2 ulp, at 2x the range, at one/half destination ulp, or are structured patterns; "
-                     "From / LossyFrom (fixed->fixed, integer<->fixed, fixed->float) on 635 generated type pairs at the EDGE of the legal "
+                     "From / LossyFrom (fixed->fixed, integer<->fixed, bool->fixed; fixed->float on every Frac of the lossless pairs) on 833 generated type pairs at the EDGE of the legal "
                      "region (equal integer bits, equal Frac, unsigned->signed needing exactly one more bit); 25 forbidden-conversion "
                      "probes one step OUTSIDE the region are compiled on every run: each must be refused by the compiler, one that "
                      "compiles is executed and its events are judged like any other; "
